@@ -55,7 +55,7 @@ class G2:
         if env["nums"]:
             opts.append(("numvar", 5))
         if env["objs"]:
-            opts += [("getter", 8), ("intgetter", 2)]
+            opts += [("getter", 8), ("intgetter", 2), ("floatgetter", 2)]
         if d > 0:
             opts += [("arith", 3), ("abs", 1), ("fn", 1), ("ifexp", 2), ("let", 1), ("div", 1), ("intmod", 1), ("pow", 1), ("neg", 1)]
             if env["objs"]:
@@ -72,6 +72,11 @@ class G2:
         if k == "getter":
             o, et = r.choice(env["objs"])
             return f"{o}.{r.choice(qgen.DOUBLE_METHODS)}()"
+        if k == "floatgetter":
+            o, et = r.choice(env["objs"])
+            m = r.choice(["fpt", "fm"])
+            self.declare(et, m)
+            return f"{o}.{m}()"
         if k == "intgetter":
             o, et = r.choice(env["objs"])
             m = r.choice(["nTrk", "charge"])
